@@ -103,7 +103,7 @@ func init() {
 	mutant("queue-after-write", "cli-register-before-write", "conn.go", "	atomic.StoreUint32(&ctx.streamID, id)\n	c.queueReq(id, ctx)\n", "	atomic.StoreUint32(&ctx.streamID, id)\n	defer c.queueReq(id, ctx)\n")
 	mutant("finish-wrong-stream", "cli-response-key", "conn.go", "		c.finish(r, fr.Stream(), err)", "		c.finish(r, c.closeRef, err)")
 	mutant("open-stream-after-goaway", "no-stream-after-goaway", "conn.go", "	if atomic.LoadUint32(&c.goAway) != 0 {\n		return false\n	}\n", "")
-	mutant("retryable-after-write", "retryable-pre-wire", "conn.go", "		c.dequeueReq(id)\n		c.deletePending(id)\n\n		return err", "		c.dequeueReq(id)\n		c.deletePending(id)\n\n		return ErrConnectionClosed")
+	mutant("retryable-after-write", "retryable-pre-wire", "conn.go", "		release()\n		c.deletePending(id)\n\n		return err", "		release()\n		c.deletePending(id)\n\n		return ErrConnectionClosed")
 	mutant("dequeue-without-resolve", "removal-implies-resolve", "conn.go", "		err := c.writeRequest(ctx)\n			if err != nil {\n				ctx.resolve(err)\n", "		err := c.writeRequest(ctx)\n			if err != nil {\n")
 	mutant("resolve-blocking", "resolve-protocol", "client.go", "		select {\n		case ctx.Err <- err:\n		default:\n		}", "		ctx.Err <- err")
 	mutant("drain-before-close", "resolve-protocol", "conn.go", "	_ = c.Close()\n\n	for _, ctx := range c.takeAllReqs() {\n		ctx.resolve(lastErr)\n	}\n", "	for _, ctx := range c.takeAllReqs() {\n		ctx.resolve(lastErr)\n	}\n\n	_ = c.Close()\n")
@@ -482,4 +482,9 @@ func init() {
 
 func init() {
 	mutant("priority-on-idle-creates-stream", "table-insert-counted", "serverConn.go", "					if fr.Body().(*Priority).Stream() == fr.Stream() {\n						sc.writeGoAway(fr.Stream(), ProtocolError, \"stream that depends on itself\")\n						break loop\n					}\n\n					continue\n				}\n", "					if fr.Body().(*Priority).Stream() == fr.Stream() {\n						sc.writeGoAway(fr.Stream(), ProtocolError, \"stream that depends on itself\")\n						break loop\n					}\n				}\n")
+}
+
+func init() {
+	mutant("dispatch-finishes-under-the-ctx-lock", "no-self-deadlock", "conn.go", "	err := c.readStreamOwned(fr, r)\n	if err == nil {", "	defer r.release()\n\n	err := c.readStream(fr, r.Response)\n	if err == nil {")
+	mutant("write-failure-cleans-up-under-the-ctx-lock", "no-self-deadlock", "conn.go", "		release()\n		c.deletePending(id)\n", "		c.deletePending(id)\n")
 }
